@@ -1,6 +1,6 @@
 (** C04 - Key rollover is safe in every interleaving and always completes.
     Only statements; proofs in ca/CaProofs.v and ca/CaObjProofs.v. *)
-From KV Require Import base.Tac ca.Ca ca.CaProofs ca.CaObjProofs.
+From KV Require Import base.Tac ca.Ca ca.CaProofs ca.CaObjProofs ca.CaCheck ca.CaMirrorProofs.
 Open Scope N_scope.
 
 (** No event emitted by a key life-cycle command can hit a panicking arm of [apply]. *)
@@ -76,6 +76,32 @@ Theorem C04_activation_keeps_issued : forall rc re k,
   amem k (rc_issued (apply_cert_update rc i s)) = amem k (rc_issued rc).
 Proof. exact activation_keeps_issued. Qed.
 
+(** Mirror: if the key state of a class is in step with its published-object sets (Pending: no sets;
+    Active/RollPending: current set of the current key; RollNew: empty staging set of the new key + current;
+    RollOld: current set of the new key + emptied old set), every key event that apply accepts is accepted by
+    the pre-save listener and leaves them in step; [listen1_class] relates the class-local step to the
+    listener on the whole store. *)
+Theorem C04_listener_accepts_and_mirrors : forall env c ks o e ks',
+  mirror_class (mkRC 0 0 ks [] [] [] [] []) o = true ->
+  ks_wf ks ->
+  is_key_event_of c e = true ->
+  (forall ki crt, e = ECertReceived c ki crt -> ks_knows ks ki = true /\
+      match ks with KRollPending p _ => ki <> p_id p | _ => True end) ->
+  (forall crt, e = EPendingToNew c crt -> match ks with KRollPending p _ => c_key crt = p_id p | _ => True end) ->
+  ks_apply c ks e = Some ks' ->
+  exists o', ok_step env o e = Ok o' /\ mirror_class (mkRC 0 0 ks' [] [] [] [] []) o' = true.
+Proof. exact mirror_key_event. Qed.
+
+Theorem C04_listener_class_view : forall env cn objs c e,
+  is_key_event_of c e = true ->
+  match ok_step env (aget c objs) e with
+  | Err => listen1 env cn objs e = Err
+  | Ok o' => exists objs' f, listen1 env cn objs e = Ok (objs', f) /\ aget c objs' = o'
+  end.
+Proof. exact listen1_class. Qed.
+
+Print Assumptions C04_listener_accepts_and_mirrors.
+Print Assumptions C04_listener_class_view.
 Print Assumptions C04_events_applicable.
 Print Assumptions C04_key_events_applicable.
 Print Assumptions C04_roll_can_always_finish.
